@@ -31,9 +31,12 @@ REQUIRED = {
     "aabb": 1500, "contract": 3000, "contract/AABB.project": 300, "contract/AABB.distance": 300, "contract/AABB.union": 100,
     "contract/AABB.intersection": 100, "contract/AABB.do_intersect": 100, "contract/AABB.of_points": 50, "contract/AABB.of_mesh": 20,
     "vec": 1500, "vec/cross": 300, "vec/det_2x2": 300, "vec/det_3x3": 300,
-    "rot": 1500, "rot/rotate_2d": 300, "rot/rotate_around_axis": 300,
-    "angle": 1500, "angle/angle_3pts": 300, "angle/signed": 200, "angle/cotan": 150, "angle/circumcenter": 150,
-    "maths": 1500, "maths/principal_angle": 300, "maths/angle_diff": 300, "maths/roots": 300,
+    "rot": 1500, "rot/rotate_2d_norm": 300, "rot/rotate_2d_compose": 300, "rot/rotate_around_axis_norm": 300,
+    "rot/rotate_around_axis_fixes_axis": 300, "rot/rotate_around_axis_compose": 200,
+    "angle": 1500, "angle/angle_3pts_range": 300, "angle/angle_3pts_symmetric": 300, "angle/signed_2vec3D": 200, "angle/signed_3pts": 200,
+    "angle/cotan": 150, "angle/circumcenter": 150,
+    "maths": 1500, "maths/principal_angle_range": 300, "maths/principal_angle_congruent": 200, "maths/angle_diff_range": 300,
+    "maths/roots": 300,
     "args": 10000, "bystanders": 10000, "errstate_return": 10000, "errstate_raise": 1000, "seq": 1000,
 }
 CASE_TIMEOUT = {"quick": 120.0, "thorough": 600.0}
@@ -309,7 +312,7 @@ def as_kind(kind, vals, sent=None):
     if kind == "row":
         base = np.array([[0.5] * len(vals), vals, [-0.25] * len(vals)], dtype=float)
         if sent is not None:
-            sent.watch("owner_of_row", base, "caller_array")
+            sent.watch("owner_of_row", base, "caller_array", transient=True)
         return base[1]
     if kind == "strided":
         base = np.zeros(2 * len(vals), dtype=float)
@@ -810,3 +813,655 @@ def run_rot(desc, ctx):
     sent.call("axis_rot_from_z", G.axis_rot_from_z, as_kind("vec", gen_vals(rng, 3, "unit")), expect=(Exception,), law_monitor="rot")
     if judged >= 10:
         ctx.nontrivial(stable_hash(desc))
+
+
+# =============================================================================================== angles, cotan, circumcentre
+def _gen_dir(rng):
+    while True:
+        v = [rng.gauss(0, 1) for _ in range(3)]
+        if X.norm(v) > 0.2:
+            return v
+
+
+def _law_scale(rng, mag):
+    """Scale of a configuration for the laws whose implementation squares a cross product (|.|^4 must stay a normal double)."""
+    if mag == "huge":
+        return 10.0 ** rng.uniform(30, 60)
+    if mag == "tiny":
+        return 10.0 ** rng.uniform(-60, -30)
+    if mag == "mixed":
+        return 10.0 ** rng.uniform(-60, 60)
+    return 1.0
+
+
+def _tri_points(rng, mag, integer=False):
+    """Three points B + s*u, B, B + s*w with a random apex position; returns (A,B,C)."""
+    s = _law_scale(rng, mag)
+    if integer:
+        pts = [[float(rng.randint(-9, 9)) for _ in range(3)] for _ in range(3)]
+        return pts[0], pts[1], pts[2]
+    B = [s * rng.uniform(-3, 3) for _ in range(3)]
+    u, w = _gen_dir(rng), _gen_dir(rng)
+    r = rng.random()
+    if r < 0.08:
+        w = [c * 2.0 for c in u]                        # angle 0 (degenerate)
+    elif r < 0.16:
+        w = [-c for c in u]                             # angle pi (degenerate)
+    elif r < 0.22:
+        w = [0.0, 0.0, 0.0]                             # C == B
+    lu, lw = 10.0 ** rng.uniform(-2, 2), 10.0 ** rng.uniform(-2, 2)
+    A = [b + s * lu * c for b, c in zip(B, u)]
+    C = [b + s * lw * c for b, c in zip(B, w)]
+    return A, B, C
+
+
+def run_angle(desc, ctx):
+    from mouette import geometry as G
+    rng = random.Random(desc["seed"])
+    sent = Sentinel(ctx, desc["cfg"])
+    mag = desc["mag"]
+    judged = 0
+    for it in range(desc["n"]):
+        integer = mag in ("int", "grid", "sparse")
+        A, B, C = _tri_points(rng, mag, integer)
+        ks = [rng.choice(KINDS) for _ in range(3)]
+        a_in, b_in, c_in = (as_kind(k, p, sent) for k, p in zip(ks, (A, B, C)))
+        A, B, C = floats_of(a_in), floats_of(b_in), floats_of(c_in)
+        ctx.cls("kind:" + ks[0])
+        BA, BC = X.sub(A, B), X.sub(C, B)          # the float differences the library forms itself
+        theta = X.angle_between(BA, BC)            # None when an arm is the zero vector
+        # ---------------- angle_3pts: range everywhere, symmetry
+        ok1, t1 = sent.call("angle_3pts", G.angle_3pts, a_in, b_in, c_in, law_monitor="angle")
+        ok2, t2 = sent.call("angle_3pts", G.angle_3pts, c_in, b_in, a_in, law_monitor="angle")
+        t1 = _scalar(t1) if ok1 else None
+        t2 = _scalar(t2) if ok2 else None
+        if ok1:
+            judged += 1
+            ctx.check(t1 is not None and 0.0 <= t1 <= math.pi, "angle", "angle_3pts_range", "outside_0_pi",
+                      "angle_3pts is not in [0, pi]", A=A, B=B, C=C, got=t1)
+        if t1 is not None and t2 is not None:
+            ctx.check(abs(t1 - t2) <= 1e-12, "angle", "angle_3pts_symmetric", "not_symmetric_in_end_points",
+                      "angle_3pts(A,B,C) != angle_3pts(C,B,A)", A=A, B=B, C=C, abc=t1, cba=t2)
+        well = theta is not None and 1e-3 <= theta <= math.pi - 1e-3
+        ctx.cls("angle:" + ("generic" if well else "degenerate"))
+        # ---------------- cotan == 1/tan(angle_3pts)
+        okc, ct = sent.call("cotan", G.cotan, a_in, b_in, c_in, expect=() if well else (Exception,), law_monitor="angle")
+        if well and okc and t1 is not None:
+            ctv = _scalar(ct)
+            good = ctv is not None and math.isfinite(ctv) and abs(math.atan2(1.0, ctv) - t1) <= 1e-9
+            ctx.check(good, "angle", "cotan", "not_reciprocal_tangent_of_angle_3pts",
+                      "cotan(A,B,C) is not 1/tan(angle_3pts(A,B,C)) (compared as angles: atan2(1,cot) vs angle)", A=A, B=B, C=C,
+                      cotan=ctv, angle_3pts=t1)
+            if it == 0 and mag in ("unit", "int"):
+                ctx.sample({"law": "cotan(A,B,C) * tan(angle_3pts(A,B,C)) == 1; angle in [0,pi]; symmetric", "A": A, "B": B, "C": C,
+                            "cotan": ctv, "angle_3pts": t1, "angle_3pts_reversed": t2})
+        # ---------------- signed angles: antisymmetric away from the degenerate set
+        N = _gen_dir(rng)
+        n_in = as_kind(rng.choice(KINDS), N, sent)
+        N = floats_of(n_in)
+        S = X.cross_f(X.unit(BA), X.unit(BC)) if theta is not None else None
+        sgn_ok = False
+        if well and S is not None and X.norm(N) > 0:
+            sgn_ok = abs(X.dot(S, X.unit(N))) >= 1e-6 * X.norm(S) and X.norm(S) >= 1e-6
+        v1 = as_kind(rng.choice(KINDS), BA, sent)
+        v2 = as_kind(rng.choice(KINDS), BC, sent)
+        if floats_of(v1) == BA and floats_of(v2) == BC:
+            o1, s12 = sent.call("signed_angle_2vec3D", G.signed_angle_2vec3D, v1, v2, n_in, law_monitor="angle")
+            o2, s21 = sent.call("signed_angle_2vec3D", G.signed_angle_2vec3D, v2, v1, n_in, law_monitor="angle")
+            if o1 and o2 and sgn_ok:
+                x, y = _scalar(s12), _scalar(s21)
+                good = x is not None and y is not None and math.isfinite(x) and math.isfinite(y) and X.mod_2pi_residual(x + y) <= 1e-9
+                ctx.check(good, "angle", "signed_2vec3D", "not_antisymmetric",
+                          "signed_angle_2vec3D(V1,V2,N) + signed_angle_2vec3D(V2,V1,N) is not 0 mod 2pi", V1=BA, V2=BC, N=N, v12=x, v21=y)
+        ka = [rng.choice(ARRAY_KINDS) for _ in range(3)]
+        a2, b2, c2 = (as_kind(k, p, sent) for k, p in zip(ka, (A, B, C)))
+        if floats_of(a2) == A and floats_of(b2) == B and floats_of(c2) == C:
+            o1, s12 = sent.call("signed_angle_3pts", G.signed_angle_3pts, a2, b2, c2, n_in, law_monitor="angle")
+            o2, s21 = sent.call("signed_angle_3pts", G.signed_angle_3pts, c2, b2, a2, n_in, law_monitor="angle")
+            if o1 and o2 and sgn_ok:
+                x, y = _scalar(s12), _scalar(s21)
+                good = x is not None and y is not None and math.isfinite(x) and math.isfinite(y) and X.mod_2pi_residual(x + y) <= 1e-9
+                ctx.check(good, "angle", "signed_3pts", "not_antisymmetric",
+                          "signed_angle_3pts(A,B,C,N) + signed_angle_3pts(C,B,A,N) is not 0 mod 2pi", A=A, B=B, C=C, N=N, abc=x, cba=y)
+        p2, q2 = gen_vals(rng, 2, mag), gen_vals(rng, 2, mag)
+        P2, Q2 = as_kind(rng.choice(KINDS), p2, sent), as_kind(rng.choice(KINDS), q2, sent)
+        o1, s12 = sent.call("angle_2vec2D", G.angle_2vec2D, P2, Q2, law_monitor="angle")
+        o2, s21 = sent.call("angle_2vec2D", G.angle_2vec2D, Q2, P2, law_monitor="angle")
+        if o1 and o2:
+            x, y = _scalar(s12), _scalar(s21)
+            good = x is not None and y is not None and X.mod_2pi_residual(x + y) <= 1e-9
+            ctx.check(good, "angle", "signed_2vec2D", "not_antisymmetric",
+                      "angle_2vec2D(V1,V2) + angle_2vec2D(V2,V1) is not 0 mod 2pi", V1=floats_of(P2), V2=floats_of(Q2), v12=x, v21=y)
+        # ---------------- circumcentre: equidistant on certified well-shaped triangles
+        _circumcenter_law(ctx, sent, G, rng, mag, it)
+    if judged >= 10:
+        ctx.nontrivial(stable_hash(desc))
+
+
+def _circumcenter_law(ctx, sent, G, rng, mag, it):
+    """Triangle with all angles >= 0.1 rad, centred within 100 edge lengths of the origin, at a scale s."""
+    s = {"unit": 1.0, "int": 1.0, "grid": 1.0, "sparse": 1.0}.get(mag)
+    if s is None:
+        s = 10.0 ** (rng.uniform(-150, -20) if mag == "tiny" else rng.uniform(20, 149) if mag == "huge" else rng.uniform(-149, 149))
+    elif rng.random() < 0.5:
+        s = 10.0 ** rng.uniform(-9, 9)
+    for _ in range(20):
+        O = [rng.uniform(-100, 100) if rng.random() < 0.7 else 0.0 for _ in range(3)]
+        tri = [[O[j] + rng.uniform(-1, 1) for j in range(3)] for _ in range(3)]
+        angs = [X.angle_between(X.sub(tri[(i + 1) % 3], tri[i]), X.sub(tri[(i + 2) % 3], tri[i])) for i in range(3)]
+        edges = [X.dist(tri[i], tri[(i + 1) % 3]) for i in range(3)]
+        if all(a is not None and a >= 0.1 for a in angs) and min(edges) >= 0.2:
+            break
+    else:
+        return
+    ks = [rng.choice(ARRAY_KINDS[:2] + ARRAY_KINDS[3:]) for _ in range(3)]      # float containers (int rounding would reshape the triangle)
+    args = [as_kind(k, [s * c for c in p], sent) for k, p in zip(ks, tri)]
+    pts = [floats_of(a) for a in args]
+    ctx.cls("circumcenter_scale:1e%+04d" % (30 * round(math.log10(s) / 30)))
+    ok, c = sent.call("circumcenter", G.circumcenter, *args, expect=(AttributeError,), law_monitor="angle")
+    if not ok:
+        if isinstance(c, AttributeError):
+            ctx.check(False, "angle", "circumcenter", "no_circumcentre_for_wellshaped_triangle",
+                      "circumcenter raised AttributeError (intersect_2lines2D answered None: absolute parallelism threshold) on a "
+                      "triangle whose angles are all >= 0.1 rad", triangle=pts, scale=s, error=str(c)[:120])
+        return
+    cf = _finite_seq(c, 3)
+    if cf is None:
+        ctx.check(False, "angle", "circumcenter", "malformed_answer", "circumcenter did not return a finite 3-vector", triangle=pts, got=repr(c)[:100])
+        return
+    dists = [X.dist(cf, p) for p in pts]
+    size = max(max(abs(v) for v in p) for p in pts)
+    tol = 1e-8 * max(size, max(dists))
+    ctx.check(max(dists) - min(dists) <= tol, "angle", "circumcenter", "not_equidistant",
+              "the circumcentre is not at equal distance from the three vertices", triangle=pts, centre=cf, distances=dists)
+    # observation only (the statement fixes equidistance, not coplanarity)
+    n = X.cross_f(X.unit(X.sub(pts[1], pts[0])), X.unit(X.sub(pts[2], pts[0])))
+    off = abs(X.dot(X.unit(n), X.sub(cf, pts[0])))
+    if off > 1e-6 * max(size, max(dists)):
+        ctx.note("angle:circumcenter_outside_triangle_plane(observation)")
+
+
+# =============================================================================================== angle reduction, n-th roots
+def _gen_real_angle(rng, mag):
+    r = rng.random()
+    if r < 0.15:
+        k = rng.randint(-6, 6)
+        return k * math.pi + rng.choice((0.0, 0.0, 1e-16, -1e-16, 4e-16, -4e-16))
+    if r < 0.25:
+        return rng.choice((0.0, -0.0, 1e-20, -1e-20, 5e-324, -5e-324, 2 * math.pi, -2 * math.pi))
+    if r < 0.45:
+        return rng.uniform(-1e6, 1e6)
+    if r < 0.6:
+        return _expo(rng, -150, 150) if mag in ("mixed", "huge", "tiny") else rng.uniform(-1e3, 1e3)
+    return rng.uniform(-20, 20)
+
+
+def _as_number(rng, x):
+    r = rng.random()
+    if r < 0.6:
+        return x
+    if r < 0.9:
+        return np.float64(x)
+    return int(x) if abs(x) < 1e15 else x
+
+
+def run_maths(desc, ctx):
+    from mouette.utils import maths as MM
+    rng = random.Random(desc["seed"])
+    sent = Sentinel(ctx, desc["cfg"])
+    mag = desc["mag"]
+    judged = 0
+    two_pi = 2 * math.pi
+    for it in range(desc["n"] * 2):
+        a = _as_number(rng, _gen_real_angle(rng, mag))
+        ok, r = sent.call("principal_angle", MM.principal_angle, a, law_monitor="maths")
+        if ok:
+            rv = _scalar(r)
+            judged += 1
+            ctx.check(rv is not None and -math.pi <= rv <= math.pi, "maths", "principal_angle_range", "outside_minus_pi_pi",
+                      "principal_angle(a) is not in [-pi, pi]", a=float(a), got=rv)
+            if rv is not None and abs(float(a)) <= 1e6:
+                tol = 1e-12 + 1e-13 * abs(float(a))
+                ctx.check(X.mod_2pi_residual(rv - float(a)) <= tol, "maths", "principal_angle_congruent", "not_congruent_mod_2pi",
+                          "principal_angle(a) - a is not a multiple of 2*pi", a=float(a), got=rv)
+                if it == 0:
+                    ctx.sample({"law": "principal_angle(a) in [-pi,pi] and == a mod 2pi", "a": float(a), "principal_angle": rv})
+        b = _as_number(rng, _gen_real_angle(rng, mag))
+        ok, r = sent.call("angle_diff", MM.angle_diff, a, b, law_monitor="maths")
+        if ok:
+            rv = _scalar(r)
+            ctx.check(rv is not None and -math.pi <= rv <= math.pi, "maths", "angle_diff_range", "outside_minus_pi_pi",
+                      "angle_diff(a,b) is not in [-pi, pi]", a=float(a), b=float(b), got=rv)
+            if rv is not None and abs(float(a)) <= 1e6 and abs(float(b)) <= 1e6:
+                tol = 1e-12 + 1e-13 * (abs(float(a)) + abs(float(b)))
+                ctx.check(X.mod_2pi_residual(rv - (float(a) - float(b))) <= tol, "maths", "angle_diff_congruent", "not_congruent_mod_2pi",
+                          "angle_diff(a,b) - (a-b) is not a multiple of 2*pi", a=float(a), b=float(b), got=rv)
+        # ---------------- roots
+        n = rng.choice((1, 2, 3, 4, 5, 6, 7, 8, 12, 17, 32))
+        form = rng.choice(("complex", "npcomplex", "real", "negreal", "int", "imag"))
+        if mag in ("mixed", "huge", "tiny"):
+            re, im = gen_vals(rng, 2, mag)
+        else:
+            re, im = rng.uniform(-2, 2), rng.uniform(-2, 2)
+        if form == "complex":
+            c = complex(re, im)
+        elif form == "npcomplex":
+            c = np.complex128(complex(re, im))
+        elif form == "real":
+            c = abs(re)
+        elif form == "negreal":
+            c = -abs(re)
+        elif form == "int":
+            c = rng.choice((1, -1, 2, -3, 7))
+        else:
+            c = complex(0.0, im)
+        ctx.cls("roots:" + form)
+        cc = complex(c)
+        ok, rs = sent.call("roots", MM.roots, c, n, law_monitor="maths")
+        if ok and abs(cc) > 0 and math.isfinite(abs(cc)):
+            unit = cc / abs(cc)
+            try:
+                vals = [complex(r) for r in rs]
+            except Exception:
+                vals = None
+            if vals is None or len(vals) != n:
+                ctx.check(False, "maths", "roots", "not_n_roots", "roots(c,n) did not return n complex numbers", c=[cc.real, cc.imag], n=n,
+                          got=repr(rs)[:200])
+                continue
+            worst = max(abs(v ** n - unit) for v in vals)
+            ctx.check(worst <= 1e-12 * (1 + n), "maths", "roots", "root_to_the_n_is_not_unit_input",
+                      "a root raised to the n-th power differs from c/|c|", c=[cc.real, cc.imag], n=n, worst=worst,
+                      roots=[[v.real, v.imag] for v in vals][:8])
+            if n >= 2:
+                sep = min(abs(vals[i] - vals[j]) for i in range(n) for j in range(i))
+                ctx.check(sep >= math.sin(math.pi / n), "maths", "roots_distinct", "roots_not_distinct",
+                          "the n n-th roots are not pairwise distinct", c=[cc.real, cc.imag], n=n, min_separation=sep)
+        # other entry points of the module: side effects only
+        if it % 5 == 0:
+            sent.call("roots", MM.roots, c, n, False, expect=(Exception,), law_monitor="maths")
+            sent.call("roots", MM.roots, 0j, rng.choice((0, 3)), expect=(Exception,), law_monitor="maths")
+            sent.call("solve_quadratic", MM.solve_quadratic, rng.uniform(-1, 1), rng.uniform(-2, 2), rng.uniform(-1, 1), expect=(Exception,),
+                      law_monitor="maths")
+    if judged >= 10:
+        ctx.nontrivial(stable_hash(desc))
+
+
+# =============================================================================================== call sequences (side effects only)
+def _build_mesh(ctx, sent, rng, kind):
+    from .. import build
+    nv = rng.choice((4, 5, 7))
+    V = [[rng.uniform(-2, 2) for _ in range(3)] for _ in range(nv)]
+    vrows = rng.choice(("list", "tuple", "nprow", "vec"))
+    irows = rng.choice(("list", "tuple", "npint"))
+    if kind == "surface":
+        ok, m = sent.call("build.surface", build.surface, V, [[0, i, i + 1] for i in range(1, nv - 1)], vrows, irows, law_monitor="seq")
+    elif kind == "polyline":
+        ok, m = sent.call("build.polyline", build.polyline, V, [[i, i + 1] for i in range(nv - 1)], vrows, irows, law_monitor="seq")
+    elif kind == "volume":
+        cells = [[0, 1, 2, 3]] + ([[1, 2, 3, 4]] if nv > 4 else [])
+        ok, m = sent.call("build.volume", build.volume, V, cells, vrows, irows, law_monitor="seq")
+    else:
+        ok, m = sent.call("build.pointcloud", build.pointcloud, V, vrows, law_monitor="seq")
+    if not ok:
+        return None
+    try:
+        w = m.vertices.create_attribute("w", float)
+        w[0] = 1.5
+        w[nv - 1] = -2.0
+        if hasattr(m, "faces") and len(m.faces):
+            t = m.faces.create_attribute("tag", int)
+            t[0] = 7
+        if hasattr(m, "edges") and len(m.edges):
+            h = m.edges.create_attribute("flag", bool, dense=True)
+            h[0] = True
+    except Exception:
+        pass
+    return m
+
+
+def _fmt(x):
+    if isinstance(x, np.ndarray):
+        return "%s%s" % ("Vec" if type(x).__name__ == "Vec" else "array", np.asarray(x).round(4).tolist())
+    if isinstance(x, float):
+        return "%.4g" % x
+    return repr(x)[:60]
+
+
+class _SeqEnv:
+    def __init__(self, ctx, sent, rng, d, mesh_kind, tmp):
+        self.ctx, self.sent, self.rng, self.d, self.tmp = ctx, sent, rng, d, tmp
+        self.arrays = {}      # name -> caller-owned d-dimensional array (registered bystander)
+        self.pairs = []       # (lo_name, hi_name)
+        self.boxes = {}       # name -> box
+        self.log = []
+        self.raised_then_ok = False
+        self._pending_raise = False
+        self.n_files = 0
+        self.mesh = _build_mesh(ctx, sent, rng, mesh_kind)
+        if self.mesh is not None:
+            sent.watch("mesh", self.mesh, "mesh")
+        for k in range(2):
+            self.new_pair()
+
+    # ---- environment ----
+    def new_pair(self):
+        from mouette import Vec
+        rng, d = self.rng, self.d
+        a = [rng.uniform(-3, 3) for _ in range(d)]
+        b = [rng.uniform(-3, 3) for _ in range(d)]
+        lo = [min(x, y) for x, y in zip(a, b)]
+        hi = [max(x, y) for x, y in zip(a, b)]
+        k = len(self.pairs)
+        how = rng.choice(("nd", "vec", "rows", "int"))
+        if how == "nd":
+            L, H = np.array(lo), np.array(hi)
+        elif how == "vec":
+            L, H = Vec(np.array(lo)), Vec(np.array(hi))
+        elif how == "int":
+            L, H = np.array([int(math.floor(v)) for v in lo], dtype=np.int64), np.array([int(math.ceil(v)) for v in hi], dtype=np.int64)
+        else:
+            base = np.array([lo, hi])
+            self.sent.watch("corners%d" % k, base, "caller_array")
+            L, H = base[0], base[1]
+        self.arrays["lo%d" % k], self.arrays["hi%d" % k] = L, H
+        self.sent.watch("lo%d" % k, L, "caller_array")
+        self.sent.watch("hi%d" % k, H, "caller_array")
+        self.pairs.append(("lo%d" % k, "hi%d" % k))
+
+    def add_box(self, b):
+        name = "b%d" % len(self.boxes)
+        self.boxes[name] = b
+        self.sent.watch(name, b, "sibling_box")
+        return name
+
+    def point(self, dim=None, zero=False):
+        rng = self.rng
+        d = self.d if dim is None else dim
+        vals = [0.0] * d if zero else [rng.uniform(-4, 4) for _ in range(d)]
+        return as_kind(rng.choice(KINDS), vals, self.sent)
+
+    def do(self, text, site, fn, *args, modifies=(), **kw):
+        ok, val = self.sent.call(site, fn, *args, expect=(Exception,), modifies=modifies, law_monitor="seq", **kw)
+        self.ctx.obs("seq", "steps")
+        self.ctx.cls("op:" + site)
+        if ok:
+            if self._pending_raise:
+                self.raised_then_ok = True
+            self.log.append(text)
+        else:
+            self._pending_raise = True
+            self.ctx.obs("seq", "raising_steps")
+            self.log.append("%s  -> raises %s" % (text, type(val).__name__))
+        return ok, val
+
+
+def _seq_step(env):
+    from mouette import geometry as G, Vec
+    from mouette.geometry import AABB
+    from mouette.utils import maths as MM
+    import mouette.mesh as Mmesh
+    rng, d = env.rng, env.d
+    r = rng.random()
+    boxes = list(env.boxes.items())
+    if r < 0.14 or not boxes:                                   # ---- construct (shared arrays => siblings)
+        c = rng.random()
+        if c < 0.55:
+            lo, hi = rng.choice(env.pairs)
+            ok, b = env.do("AABB(%s, %s)" % (lo, hi), "AABB", AABB, env.arrays[lo], env.arrays[hi])
+        elif c < 0.65:
+            lo, hi = [rng.uniform(-3, 0) for _ in range(d)], [rng.uniform(0, 3) for _ in range(d)]
+            ok, b = env.do("AABB(list, list)", "AABB", AABB, lo, hi)
+        elif c < 0.75 and env.mesh is not None and d == 3:
+            n = len(env.mesh.vertices)
+            i, j = rng.randrange(n), rng.randrange(n)
+            ok, b = env.do("AABB(mesh.vertices[%d], mesh.vertices[%d])" % (i, j), "AABB", AABB, env.mesh.vertices[i], env.mesh.vertices[j])
+        elif c < 0.85 and env.mesh is not None:
+            pad = rng.choice((None, 0.0, 0.5))
+            ok, b = env.do("AABB.of_mesh(mesh%s)" % ("" if pad is None else ", %s" % pad), "AABB.of_mesh", AABB.of_mesh, env.mesh,
+                           *(() if pad is None else (pad,)))
+        elif c < 0.93:
+            names = [n for p in env.pairs for n in p]
+            pts = [env.arrays[n] for n in names]
+            arg = pts if rng.random() < 0.5 else np.array([floats_of(p) for p in pts])
+            ok, b = env.do("AABB.of_points([%s])" % ", ".join(names), "AABB.of_points", AABB.of_points, arg, rng.choice((0.0, 0.25)))
+        elif c < 0.97:
+            ok, b = env.do("AABB(lo, hi-of-other-dimension)", "AABB", AABB, env.arrays[env.pairs[0][0]], np.zeros(d + 1))
+        else:
+            env.new_pair()
+            return
+        if ok:
+            env.add_box(b)
+        return
+    name, box = rng.choice(boxes)
+    if r < 0.30:                                                # ---- pad (documented to modify the box itself only)
+        c = rng.random()
+        if c < 0.35:
+            pad = rng.choice((0.5, 0.25, 2.0, 1e-3))
+        elif c < 0.45:
+            pad = -1.0
+        elif c < 0.7:
+            pad = as_kind(rng.choice(KINDS), [rng.uniform(-0.5, 1.0) for _ in range(box.dim)], env.sent)
+        elif c < 0.8:
+            pad = [0.5] * (box.dim + 1)                          # wrong dimension: raises
+        elif c < 0.9:
+            pad = 1                                              # int scalar: not a float -> Vec(1) has size 1
+        else:
+            pad = "wide"
+        env.do("%s.pad(%s)" % (name, _fmt(pad)), "AABB.pad", box.pad, pad, modifies=(box,))
+    elif r < 0.45:                                              # ---- point queries
+        q = rng.choice(("contains_point", "project", "distance", "distance_bad_norm", "wrong_dim"))
+        if q == "wrong_dim":
+            p = env.point(box.dim + rng.choice((-1, 1)) if box.dim > 1 else 2)
+            env.do("%s.project(%s)" % (name, _fmt(p)), "AABB.project", box.project, p)
+        elif q == "distance_bad_norm":
+            p = env.point(box.dim)
+            env.do("%s.distance(%s, 'l3')" % (name, _fmt(p)), "AABB.distance", box.distance, p, rng.choice(("l3", 2, None)))
+        elif q == "distance":
+            p = env.point(box.dim)
+            w = rng.choice(NORMS)
+            env.do("%s.distance(%s, %r)" % (name, _fmt(p), w), "AABB.distance", box.distance, p, w)
+        else:
+            p = env.point(box.dim) if rng.random() < 0.7 else env.arrays[rng.choice(env.pairs)[0]]
+            env.do("%s.%s(%s)" % (name, q, _fmt(p)), "AABB." + q, getattr(box, q), p)
+    elif r < 0.55:                                              # ---- box-box
+        n2, b2 = rng.choice(boxes)
+        if rng.random() < 0.15:
+            n2, b2 = "unit_cube(%d)" % (box.dim + 1), AABB.unit_cube(box.dim + 1)
+        op = rng.choice(("union", "intersection", "do_intersect", "or", "and"))
+        if op == "or":
+            ok, res = env.do("%s | %s" % (name, n2), "AABB.union", lambda x, y: x | y, box, b2)
+        elif op == "and":
+            ok, res = env.do("%s & %s" % (name, n2), "AABB.intersection", lambda x, y: x & y, box, b2)
+        else:
+            ok, res = env.do("AABB.%s(%s, %s)" % (op, name, n2), "AABB." + op, getattr(AABB, op), box, b2)
+        if ok and op != "do_intersect" and rng.random() < 0.5:
+            env.add_box(res)
+    elif r < 0.60:                                              # ---- read-only properties
+        prop = rng.choice(("center", "span", "is_empty", "repr", "dim", "mini"))
+        if prop == "repr":
+            env.do("repr(%s)" % name, "AABB.__repr__", repr, box)
+        elif prop == "is_empty":
+            env.do("%s.is_empty()" % name, "AABB.is_empty", box.is_empty)
+        else:
+            env.do("%s.%s" % (name, prop), "AABB." + prop, lambda b=box, p=prop: getattr(b, p))
+    elif r < 0.72:                                              # ---- Vec.normalized / normalize
+        c = rng.random()
+        if c < 0.3:
+            v = as_kind(rng.choice(ARRAY_KINDS), [0.0] * rng.choice((2, 3)), env.sent)      # zero vector: raises
+        elif c < 0.4:
+            v = env.arrays[rng.choice(env.pairs)[rng.randrange(2)]]
+        else:
+            v = as_kind(rng.choice(ARRAY_KINDS), [rng.uniform(-2, 2) for _ in range(rng.choice((2, 3, 5)))], env.sent)
+        which = rng.choice(("l2", "l2", "l1", "linf", "l7"))
+        if rng.random() < 0.15:
+            fresh = Vec(np.array(floats_of(v)))
+            env.do("Vec%s.normalize(%r)" % (floats_of(v), which), "Vec.normalize", fresh.normalize, which, modifies=(fresh,))
+        elif which == "l2" and rng.random() < 0.5:
+            env.do("Vec.normalized(%s)" % _fmt(v), "Vec.normalized", Vec.normalized, v)
+        else:
+            env.do("Vec.normalized(%s, %r)" % (_fmt(v), which), "Vec.normalized", Vec.normalized, v, which)
+    elif r < 0.86:                                              # ---- 3-D primitives, degenerate inputs included
+        def p3(deg=False):
+            vals = [0.0, 0.0, 0.0] if deg else [rng.uniform(-2, 2) for _ in range(3)]
+            return as_kind(rng.choice(ARRAY_KINDS), vals, env.sent)
+        A, B, C = p3(), p3(), p3()
+        deg = rng.random() < 0.35
+        if deg:
+            C = as_kind("nd", [2 * x - y for x, y in zip(floats_of(B), floats_of(A))])     # collinear A, B, C
+            if rng.random() < 0.4:
+                C = as_kind("vec", floats_of(B))                                          # C == B
+        f = rng.choice(("cotan", "angle_3pts", "circumcenter", "face_basis", "triangle_area", "aspect_ratio", "quad_area", "cross_short",
+                        "det_3x3_bad", "norm_bad", "signed_angle_3pts", "signed_angle_2vec3D", "angle_2vec3D", "intersect_2lines2D",
+                        "distance_to_segment2D", "project_to_plane", "distance", "dot", "cross", "det_2x2", "triangle_area_2D"))
+        ctxs = "degenerate " if deg else ""
+        if f in ("cotan", "angle_3pts", "circumcenter", "face_basis", "triangle_area", "aspect_ratio", "triangle_area_2D"):
+            env.do("%s(%s%s, %s, %s)" % (f, ctxs, _fmt(A), _fmt(B), _fmt(C)), f, getattr(G, f), A, B, C)
+        elif f == "quad_area":
+            env.do("quad_area(A,B,C,D)", f, G.quad_area, A, B, C, p3())
+        elif f == "cross_short":
+            env.do("cross(2-vector, 3-vector)", "cross", G.cross, as_kind("nd", [1.0, 2.0]), B)
+        elif f == "det_3x3_bad":
+            env.do("det_3x3(2x2 matrix)", "det_3x3", G.det_3x3, np.eye(2))
+        elif f == "norm_bad":
+            env.do("norm(A, 'l5')", "norm", G.norm, A, "l5")
+        elif f == "signed_angle_3pts":
+            env.do("signed_angle_3pts(A,B,C,N)", f, G.signed_angle_3pts, A, B, C, p3(deg))
+        elif f == "signed_angle_2vec3D":
+            env.do("signed_angle_2vec3D(A,B,N)", f, G.signed_angle_2vec3D, A, B, p3(deg))
+        elif f == "intersect_2lines2D":
+            d2 = as_kind("vec", [2 * v for v in floats_of(B)]) if deg else C
+            env.do("intersect_2lines2D(A, B, C, %s)" % ("parallel" if deg else "D"), f, G.intersect_2lines2D, Vec(A), Vec(B), Vec(C), Vec(d2))
+        elif f == "distance_to_segment2D":
+            env.do("distance_to_segment2D(A,B,%s)" % ("B" if deg else "C"), f, G.distance_to_segment2D, A, B, B if deg else C)
+        elif f == "project_to_plane":
+            env.do("project_to_plane(A, N%s, C)" % ("=0" if deg else ""), f, G.project_to_plane, A, p3(deg), C)
+        elif f == "det_2x2":
+            env.do("det_2x2(A,B)", f, G.det_2x2, A, B)
+        else:
+            env.do("%s(A,B)" % f, f, getattr(G, f), A, B)
+    elif r < 0.92:                                              # ---- rotations
+        v = as_kind(rng.choice(KINDS), [rng.uniform(-2, 2) for _ in range(3)], env.sent)
+        c = rng.random()
+        if c < 0.3:
+            env.do("rotate_2d(v, a)", "rotate_2d", G.rotate_2d, as_kind(rng.choice(KINDS), [1.0, 2.0], env.sent), rng.uniform(-7, 7))
+        elif c < 0.55:
+            env.do("rotate_around_axis(v, zero axis, a)", "rotate_around_axis", G.rotate_around_axis, v, as_kind("nd", [0.0, 0.0, 0.0]), 1.0)
+        elif c < 0.85:
+            ax = as_kind(rng.choice(KINDS), [rng.uniform(-2, 2) for _ in range(3)], env.sent)
+            env.do("rotate_around_axis(v, axis, a)", "rotate_around_axis", G.rotate_around_axis, v, ax, rng.choice((0.0, 1.0, -2.5)))
+        else:
+            env.do("axis_rot_from_z(v)", "axis_rot_from_z", G.axis_rot_from_z, Vec(np.array(floats_of(v))))
+    elif r < 0.95:                                              # ---- scalar maths
+        c = rng.random()
+        if c < 0.4:
+            env.do("roots(c, n)", "roots", MM.roots, complex(rng.uniform(-1, 1), rng.uniform(-1, 1)), rng.choice((0, 1, 3, 4, -2)))
+        elif c < 0.6:
+            env.do("principal_angle(a)", "principal_angle", MM.principal_angle, rng.uniform(-50, 50))
+        elif c < 0.8:
+            env.do("angle_diff(a, b)", "angle_diff", MM.angle_diff, rng.uniform(-50, 50), np.float64(rng.uniform(-50, 50)))
+        else:
+            env.do("solve_quadratic(A,B,C)", "solve_quadratic", MM.solve_quadratic, rng.choice((0.0, 1.0)), rng.uniform(-2, 2), rng.uniform(-1, 1))
+    elif env.mesh is not None:                                  # ---- save with ignored elements (the mesh is an input)
+        kind = type(env.mesh).__name__
+        exts = ["obj", "mesh", "off", "ply", "xyz", "tet", "nope"]
+        if kind != "VolumeMesh":
+            exts.append("geogram_ascii")
+        ext = rng.choice(exts)
+        ign = rng.choice((None, set(), {"edges"}, {"faces"}, {"cells"}, {"edges", "faces"}, {"faces", "cells"}, {"edges", "faces", "cells"}))
+        env.n_files += 1
+        path = os.path.join(env.tmp, "m%d.%s" % (env.n_files, ext))
+        txt = "save(mesh, 'm.%s'%s)" % (ext, "" if ign is None else ", ignore_elements=%s" % sorted(ign))
+        if ign is None:
+            env.do(txt, "mesh.save", Mmesh.save, env.mesh, path)
+        else:
+            env.do(txt, "mesh.save", Mmesh.save, env.mesh, path, ignore_elements=ign)
+
+
+def run_seq(desc, ctx):
+    rng = random.Random(desc["seed"])
+    sent = Sentinel(ctx, desc["cfg"])
+    base = dict(_evals)
+    tmp = tempfile.mkdtemp(prefix="c12_")
+    try:
+        env = _SeqEnv(ctx, sent, rng, desc["dim"], desc["mesh"], tmp)
+        for _ in range(desc["len"]):
+            _seq_step(env)
+        ctx.obs("seq", "sequences")
+        if env.raised_then_ok:
+            ctx.nontrivial(stable_hash(desc))
+            ctx.obs("seq", "raise_then_return")
+        if desc["len"] <= 5 and env._pending_raise:
+            ctx.sample({"sequence": env.log, "numpy_error_configuration": desc["cfg"], "mesh": desc["mesh"],
+                        "checked_after_every_step": "argument arrays, caller arrays, sibling boxes, mesh, numpy.geterr()"})
+    finally:
+        shutil.rmtree(tmp, ignore_errors=True)
+        _flush_evals(ctx, base)
+
+
+# =============================================================================================== anchors (pinned tiny histories)
+def run_anchor(desc, ctx):
+    from mouette import Vec, geometry as G
+    from mouette.geometry import AABB
+    import mouette.mesh as Mmesh
+    from .. import build
+    sent = Sentinel(ctx, desc["cfg"])
+    name = desc["name"]
+    log = []
+
+    def do(text, site, fn, *a, modifies=(), **k):
+        ok, v = sent.call(site, fn, *a, expect=(Exception,), modifies=modifies, law_monitor="seq", **k)
+        ctx.obs("seq", "steps")
+        log.append(text if ok else "%s  -> raises %s" % (text, type(v).__name__))
+        return ok, v
+
+    if name == "normalized_errstate":
+        do("Vec.normalized(Vec(3,4,0))", "Vec.normalized", Vec.normalized, Vec(3., 4., 0.))
+        do("Vec.normalized(Vec(0,0,0))", "Vec.normalized", Vec.normalized, Vec(0., 0., 0.))
+        do("cotan((1,0,0),(0,0,0),(1,1,0))", "cotan", G.cotan, Vec(1., 0., 0.), Vec(0., 0., 0.), Vec(1., 1., 0.))
+    elif name == "pad_aliasing":
+        lo, hi = np.zeros(3), np.ones(3)
+        sent.watch("lo", lo, "caller_array")
+        sent.watch("hi", hi, "caller_array")
+        ok, a = do("a = AABB(lo, hi)   # lo = zeros(3), hi = ones(3)", "AABB", AABB, lo, hi)
+        ok2, b = do("b = AABB(lo, hi)", "AABB", AABB, lo, hi)
+        if ok and ok2:
+            sent.watch("a", a, "sibling_box")
+            sent.watch("b", b, "sibling_box")
+            do("a.pad(0.5)", "AABB.pad", a.pad, 0.5, modifies=(a,))
+            do("a.pad([1,1])  # wrong dimension", "AABB.pad", a.pad, [1., 1.], modifies=(a,))
+            do("b.contains_point(lo)", "AABB.contains_point", b.contains_point, lo)
+    else:
+        tmp = tempfile.mkdtemp(prefix="c12_")
+        try:
+            V = [[0., 0., 0.], [1., 0., 0.], [1., 1., 0.], [0., 1., 0.5]]
+            m = build.surface(V, [[0, 1, 2], [0, 2, 3]])
+            sent.watch("mesh", m, "mesh")
+            do("AABB.of_mesh(m)", "AABB.of_mesh", AABB.of_mesh, m)
+            do("save(m, 'm.obj')", "mesh.save", Mmesh.save, m, os.path.join(tmp, "a.obj"))
+            do("save(m, 'm.obj', ignore_elements={'faces'})", "mesh.save", Mmesh.save, m, os.path.join(tmp, "b.obj"), ignore_elements={"faces"})
+            do("save(m, 'm.unknown')", "mesh.save", Mmesh.save, m, os.path.join(tmp, "c.unknown"))
+        finally:
+            shutil.rmtree(tmp, ignore_errors=True)
+    ctx.obs("seq", "sequences")
+    ctx.nontrivial("anchor:" + name)
+    ctx.sample({"sequence": log, "numpy_error_configuration": desc["cfg"],
+                "checked_after_every_step": "argument arrays, caller arrays, sibling boxes, mesh, numpy.geterr()"})
+
+
+# =============================================================================================== entry
+_RUN = {"aabb": run_aabb, "vec": run_vec, "rot": run_rot, "angle": run_angle, "maths": run_maths, "seq": run_seq, "anchor": run_anchor}
+
+
+def run_case(desc, ctx):
+    worker_init()
+    g = desc["gen"]
+    ctx.cls("gen:" + g)
+    ctx.cls("cfg:" + desc.get("cfg", "warn"))
+    if "dim" in desc and g in ("aabb", "seq"):
+        ctx.cls("dim:%d" % desc["dim"])
+    if "mag" in desc:
+        ctx.cls("mag:" + desc["mag"])
+    try:
+        _RUN[g](desc, ctx)
+    finally:
+        np.seterr(**HARNESS_ERR)
